@@ -89,7 +89,7 @@ def lemma_ws_closure(name):
         if not ok:
             return {'state': 'violation', 'detail': info, 'replay': {'module': 'vf.props.c10', 'fn': 'replay_ws', 'kwargs': {'name': name, 's': sv, 't': tv}}}
         tried.append((sv, tv))
-        sol.add(z3.Or(s != z3.StringVal(sv), w1 != m.eval(w1, True), w2 != m.eval(w2, True)))
+        sol.add(z3.Or(s != R.strval(sv), w1 != m.eval(w1, True), w2 != m.eval(w2, True)))
     return {'state': 'inconclusive', 'why': f'regex-level candidates exist but none changes the parse (first: {tried[:2]})'}
 
 
@@ -251,7 +251,7 @@ def lemma_arg_split():
         ok, info = replay_args(sv)
         if not ok:
             return {'state': 'violation', 'detail': info, 'replay': {'module': 'vf.props.c10', 'fn': 'replay_args', 'kwargs': {'args_text': sv}}}
-        sol.add(s != z3.StringVal(sv))
+        sol.add(s != R.strval(sv))
     return {'state': 'inconclusive', 'why': 'regex-level candidates do not change the parse'}
 
 
